@@ -8,6 +8,8 @@
      R5 a batch whose first offending header contradicts the next checkpoint: disconnected, nothing requested
      R5' (independent of the cursor the implementation reports) a batch that extends the tip header by header and whose
         header at the height of the least checkpoint above the tip differs from that checkpoint: the sender is disconnected
+     Rb a header contradicting ANY checkpoint that joins the longest chain in a step (delivered in that step or lying stale from
+        before, by whichever peer): the sender of that step is disconnected and nothing is requested from it
      R6 every request made while handling headers carries the hash of the checkpoint the cursor points at, the zero
         hash when none is left (SyncSpec.spec_stop); a clean batch containing the expected checkpoint moves the cursor
         to the least checkpoint above it (SyncSpec.spec_advance) *)
@@ -34,7 +36,7 @@ let spec input obs_s =
     let cp_id_at h = try Some (Stdlib.List.assoc h sc.cps) with Not_found -> None in
     let verdict = ref "OK" in
     let fail c d = if !verdict = "OK" then verdict := "FAIL " ^ c ^ " " ^ d in
-    let n_contra = ref 0 and n_forb = ref 0 and n_adv = ref 0 in
+    let n_contra = ref 0 and n_forb = ref 0 and n_adv = ref 0 and n_adopt = ref 0 in
     (* R1, R2 *)
     let rows = orows o in
     if not (SyncSpec.spec_forbidden_absent sc.hist.forbidden rows) then fail "forbidden-stored" "a forbidden hash is in the headers table";
@@ -50,6 +52,13 @@ let spec input obs_s =
     Stdlib.List.iter (fun i -> Hashtbl.replace known i ()) sc.init;
     let dropped = Hashtbl.create 8 in
     let prev_state = ref o.init_state in
+    (* experimental engine: every connection has its own cursor; the tip is shared *)
+    let peer_state : (int, string list) Hashtbl.t = Hashtbl.create 8 in
+    let cur_state p = if is_x then (match Hashtbl.find_opt peer_state p with Some st -> st | None -> ["-"]) else !prev_state in
+    let ancestors tip = (* ancestor-or-self ids of tip inside the universe *)
+      let rec go acc n i = if n > 100000 then acc else match Hashtbl.find_opt u i with
+        | Some (sr : Store.src) -> go (i :: acc) (n + 1) (int_of_n sr.Store.s_prev) | None -> i :: acc in
+      go [] 0 tip in
     Stdlib.List.iter (fun step -> Stdlib.List.iter (fun (e : obs_event) ->
         let p = e.peer in
         let gs = g_effs e.effs in
@@ -61,8 +70,28 @@ let spec input obs_s =
               let q = int_of_string (after 1 eff) in
               if not (has_prefix_eff "X" q e.effs) then fail "ban-without-disconnect" e.label
             end) e.effs;
+        (* Rb: a header that contradicts a checkpoint (any checkpoint of the list, delivered by any connected peer, now or
+           earlier) must not JOIN THE LONGEST CHAIN with the sender of the step kept: if after this step the reported tip has
+           an ancestor-or-self at a checkpoint height whose hash differs from the checkpoint, and it was not there before,
+           the sender of this step is disconnected and nothing is requested from it *)
+        if e.kind = 'H' then begin
+          let before = ancestors (tip_of !prev_state) and after_ = ancestors (tip_of e.state) in
+          let bad i = (match th i with Some h -> (match cp_id_at h with Some c -> c <> i | None -> false) | None -> false) in
+          let newly = Stdlib.List.filter (fun i -> bad i && not (Stdlib.List.mem i before)) after_ in
+          if newly <> [] && tip_of !prev_state >= 0 then begin
+            incr n_adopt;
+            if not (has_prefix_eff "X" p e.effs) then begin
+              (* the default engine only ever looks at the checkpoint its cursor points at: a branch contradicting an ALREADY PASSED
+                 checkpoint that overtakes the tip is adopted (known finding C07-passed-checkpoint-fork-adopted) *)
+              let hc = (match th (Stdlib.List.hd newly) with Some h -> h | None -> -1) in
+              let cls = if (not is_x) && next_of !prev_state <> hc then "passed-checkpoint-contradiction-adopted" else "checkpoint-contradicting-header-adopted" in
+              fail cls (Printf.sprintf "%s: header %d joined the longest chain, sender kept" e.label (Stdlib.List.hd newly))
+            end;
+            if Stdlib.List.exists (fun (q, _, _) -> q = p) gs then fail "request-after-checkpoint-contradiction" e.label
+          end
+        end;
         if e.kind = 'H' && e.batch <> [] then begin
-          let nh = if is_x && !prev_state = ["-"] then -1 else next_of !prev_state in
+          let nh = if is_x && cur_state p = ["-"] then -1 else next_of (cur_state p) in
           let fresh i = not (Hashtbl.mem known i) in
           let contradicts i = fresh i && nh >= 0 && th i = Some nh && (match cp_id_at nh with Some c -> c <> i | None -> false) in
           let matches i = fresh i && nh >= 0 && th i = Some nh && cp_id_at nh = Some i in
@@ -123,7 +152,8 @@ let spec input obs_s =
               if not (SyncSpec.spec_stop cps (z_of_int (next_of e.state)) (n_of_int stop)) then fail "wrong-stop-hash" e.label) gs;
         Stdlib.List.iter (fun eff -> if Stdlib.String.length eff > 1 && eff.[0] = 'X' then Hashtbl.replace dropped (int_of_string (after 1 eff)) ()) e.effs;
         if Stdlib.List.mem "P" e.effs then fail "panic" e.label;
+        Hashtbl.replace peer_state p e.state;
         prev_state := e.state) step) o.steps;
-    if !verdict = "OK" then Printf.sprintf "OK forbidden-deliveries=%d contradictions=%d advances=%d" !n_forb !n_contra !n_adv else !verdict
+    if !verdict = "OK" then Printf.sprintf "OK forbidden-deliveries=%d contradictions=%d advances=%d adoptions-refused=%d" !n_forb !n_contra !n_adv !n_adopt else !verdict
 
 let () = run_driver model spec
